@@ -26,8 +26,11 @@ pub struct C16;
 /// Extreme values of a usize argument.
 pub fn ext_usize(sel: u8, rnd: u64) -> usize {
     const T: [usize; 24] = [0, 1, 2, 3, 7, 8, 9, 255, 256, 65535, 65536, 65537, 1 << 20, (u32::MAX - 1) as usize, u32::MAX as usize, u32::MAX as usize + 1, (1 << 63) - 1, 1 << 63, usize::MAX - 1, usize::MAX, usize::MAX / 2, usize::MAX / 2 + 1, usize::MAX / 3, 1 << 40];
-    match sel % 40 {
+    // powers of two ± 1 around the NTT capacity of the smallest field (Prio2: 2n ≤ 2^20)
+    const T2: [usize; 6] = [(1 << 18) - 1, 1 << 18, (1 << 19) - 1, 1 << 19, (1 << 20) - 1, (1 << 20) + 1];
+    match sel % 46 {
         s if (s as usize) < T.len() => T[s as usize],
+        s @ 40..=45 => T2[s as usize - 40],
         24..=33 => 1 + (rnd % 64) as usize,
         34..=36 => (rnd % 5000) as usize,
         _ => rnd as usize,
@@ -140,6 +143,22 @@ fn arb_meas(inst: &Inst, sel: u8, seed: u64) -> Meas {
                     if !v.is_empty() {
                         let i = (r as usize) % v.len();
                         v[i] = U(max.0.saturating_add(1));
+                    }
+                }
+                6 => {
+                    // every entry at the bound: each in range, the L1 norm far beyond it (and beyond
+                    // the integer type when the bound is above half its width)
+                    for x in v.iter_mut() {
+                        *x = U(max.0);
+                    }
+                }
+                4 => {
+                    // two entries at the bound
+                    if !v.is_empty() {
+                        let i = (r as usize) % v.len();
+                        let j = ((r >> 32) as usize) % v.len();
+                        v[i] = U(max.0);
+                        v[j] = U(max.0);
                     }
                 }
                 _ => {
@@ -758,7 +777,8 @@ fn prio2_ops(len: usize, seed: u64, op: u8, obs: &mut Obs) {
         }
         Ok(Err(_)) => {
             obs.label("prio2-new:err");
-            if len < (1 << 18) {
+            // documented capacity: 2·next_power_of_two(len + 1) ≤ 2^20
+            if len < (1 << 19) {
                 obs.fail("prio2-new-refuses-supported-length", format!("Prio2::new({len}) refused a length within the field's capacity"));
             }
             return;
@@ -770,9 +790,14 @@ fn prio2_ops(len: usize, seed: u64, op: u8, obs: &mut Obs) {
         obs.fail("prio2-new-accepts-oversized", format!("Prio2::new({len}) accepted a length beyond the field's capacity (2n must not exceed 2^20)"));
         return;
     }
-    if len > 5000 {
+    // an accepted length must give a usable instance: large ones are exercised end to end only
+    // (one case in 48: an execution at 2^19 elements takes seconds), small ones with every operation
+    if len > 5000 && op % 48 != 0 {
         obs.label("prio2:constructed-not-exercised");
         return;
+    }
+    if len > 5000 {
+        obs.label("prio2:large-instance-exercised");
     }
     let key: [u8; 32] = arr_from(seed ^ 5);
     let nonce: [u8; 16] = arr_from(seed ^ 3);
@@ -1052,6 +1077,11 @@ impl Check for C16 {
             Case::Prio2 { len_sel: 19, len_rnd: 0, seed: 1, op: 0 },
             Case::Prio2 { len_sel: 17, len_rnd: 0, seed: 1, op: 0 },
             Case::Prio2 { len_sel: 0, len_rnd: 0, seed: 1, op: 0 },
+            // capacity boundary of Prio2: 2^19 − 1 is the largest usable length
+            Case::Prio2 { len_sel: 42, len_rnd: 0, seed: 1, op: 0 },
+            Case::Prio2 { len_sel: 43, len_rnd: 0, seed: 1, op: 0 },
+            Case::Prio2 { len_sel: 44, len_rnd: 0, seed: 1, op: 0 },
+            Case::Prio2 { len_sel: 12, len_rnd: 0, seed: 1, op: 0 },
             Case::Poplar { bits: 0, seed: 1, op: PopOp::Shard { input_len: 0 } },
             Case::Poplar { bits: 0, seed: 1, op: PopOp::DecodeInputShare },
             Case::P3Misuse { cfg: h(4, 2), seed: 3, m: P3Misuse::BadLeaderShare { meas_delta: 0, proofs_delta: -1, toggle_blind: false } },
